@@ -1921,6 +1921,8 @@ PROBE_WHAT = {
 		'declaration), so inside a call chain no copy exists and the mutating method works on the original (python [3,3], c++ [3,2])',
 	'cxx:list-literal-operand': 'a list literal used as an operand — `n in [1, 2, v]`, `[v, n, 3][i]` — is emitted as a bare brace list (`std::find({..}.begin(), ..)`, `{..}[i]`): '
 		'g++ rejects (a braced-init-list is not an expression)',
+	'cxx:list-extend-nonliteral': '`xs.extend(ys)` with a list VARIABLE (or a comprehension / call result) is emitted `xs.insert(xs.end(), ys);` (func_call/list_extend.j2): '
+		'std::vector has no such overload, g++ rejects; only a list LITERAL argument (an initializer list) compiles',
 	'comp:range-begin-step': 'a list / dict comprehension over `range(begin, stop[, step])`: comp/comp_for_range.j2 pastes the whole argument text as the size '
 		'(`auto x = 0; x < 1, n; x++`): begin and step are ignored and the loop test is a comma expression (its value is `n`: an endless loop for n != 0); '
 		'only the one-argument form is right',
@@ -2048,6 +2050,9 @@ def probe_program(rng: random.Random, key: str | None = None) -> tuple[str, dict
 			f'\treturn 1 if {a} in [{rng.randint(0, 9)}, {b}, {e1}] else 0\n',
 			f'\treturn [{e1}, {a}, {b}][{a} & 1] + {rng.randint(0, 9)}\n',
 		])
+	elif key == 'cxx:list-extend-nonliteral':
+		arg = rng.choice(['ys', 'ys', f'[y + {rng.randint(1, 5)} for y in ys]'])
+		body = f'\txs = [{e1}, {a}]\n\tys = [{b}, {e2}, {rng.randint(0, 9)}]\n\txs.extend({arg})\n\tt = len(xs) * 1000\n\tfor x in xs:\n\t\tt += x & 15\n\treturn t\n'
 	elif key == 'comp:range-begin-step':
 		rargs = rng.choice([f'{rng.randint(1, 3)}, ({a} & 7) + 4', f'0, ({a} & 7) + 2, {rng.randint(2, 3)}', f'{b} & 3, ({a} & 7) + 5', f'1, 9, ({b} & 1) + 1'])
 		body = rng.choice([
@@ -2203,6 +2208,9 @@ IDIOM_WHAT = {
 		'comprehensions over dict views and with a condition, statement loops over keys() / values() / items() / enumerate / a list, tuple indexing, nested lists, '
 		'a call of a None function: independent copies, '
 		'the popped / remaining elements and the aggregated values are Python\'s',
+	'idiom:separators-in-subexpressions': 'sub-expressions whose rendered text contains top-level-looking separators — calls with two arguments (also nested), '
+		'tuple keys / values, string literals containing `, ` `: ` `{` `}` — as dict-comprehension keys AND values, list-comprehension projections and conditions, '
+		'dict literal keys / values and call arguments: the emitted text keeps each sub-expression whole',
 	'idiom:inferred-operator-type': 'the type inferred for an operator expression with operands of different types (int op float, float op int, flat chains of both) '
 		'is the type of Python\'s value whichever operand stands on the left: an un-annotated local, a list literal element, a comprehension projection '
 		'and a lambda result declared from it keep the fractional part',
@@ -2231,6 +2239,8 @@ def idiom_program(rng: random.Random, key: str | None = None) -> tuple[str, dict
 		return key, _mixed_type_program(rng)
 	if key == 'idiom:container-methods':
 		return key, _container_methods_program(rng)
+	if key == 'idiom:separators-in-subexpressions':
+		return key, _separators_program(rng)
 	elem = rng.choice([str(k3), 'v', f'v + {k1}', f'v * {k2}'])
 	cnt = rng.choice(['n', f'n + {rng.randint(1, 2)}', f'(n & 3)', str(rng.randint(0, 4))])
 	read = rng.choice(['t += x', f't = t * {k2} + x', 't += x + 1'])
@@ -2242,6 +2252,35 @@ def idiom_program(rng: random.Random, key: str | None = None) -> tuple[str, dict
 	args = [[rng.randint(0, 6), rng.randint(0, 9)] for _ in range(5)]
 	entries = [{'fn': f, 'params': ['int', 'int'], 'ret': 'int', 'args': args} for f in ('fill_anno', 'fill_inferred', 'fill_field')]
 	return key, {'source': '\n\n'.join(parts), 'entries': entries, 'classes': {'Grid': ['cells', 'n']}}
+
+
+def _separators_program(rng: random.Random) -> dict[str, Any]:
+	"""every position that a handler may recover by splitting RENDERED text (dict-comprehension key / value, list-comprehension projection /
+	condition, dict literal entries, call arguments) holds a sub-expression that itself contains `, ` / `: ` / brackets / braces / quotes"""
+	c = [rng.randint(1, 9) for _ in range(6)]
+	two = lambda: rng.choice(['max', 'min', 'key_of'])  # noqa: E731 - a call with two arguments
+	strs = rng.sample(["'a, b'", "'c: d'", "'{e}'", "'f, {g: h}'", "'(i, j)'", "'k]'"], 3)
+	parts = [f'def key_of(a: int, b: int) -> int:\n\treturn a * {rng.randint(7, 13)} + b\n']
+	fns: list[str] = []
+
+	def fn(name: str, body: str) -> None:
+		parts.append(f'def {name}(n: int, v: int) -> list[int]:\n{body}')
+		fns.append(name)
+
+	xs = f'[v, n, v + n + {c[0]}]'
+	fn('dc_call', f'\txs = {xs}\n\tw = {{{two()}(x, n + {c[1]}): {two()}(x, {two()}(v, {c[2]})) for x in xs}}\n\tt = 0\n\tfor k, y in w.items():\n\t\tt += k * 3 + y\n\treturn [t, len(w)]\n')
+	fn('dc_cond', f'\txs = {xs}\n\tw = {{x: key_of(x, {c[3]}) for x in xs if {two()}(x, n) > min(v, {c[4]})}}\n\tt = 0\n\tfor k, y in w.items():\n\t\tt += k + y\n\treturn [t, len(w)]\n')
+	fn('dc_tuple', f'\txs = {xs}\n\tw = {{(x, n): x + n for x in xs}}\n\tu = {{x: (x * {c[1]}, n) for x in xs}}\n\treturn [w[(v, n)], len(w), u[v][0], u[n][1]]\n')
+	fn('dc_str', f'\tnames = [{", ".join(strs)}]\n\tw = {{s: len(s) + n for s in names}}\n\tu = {{s + \', \': v + len(s) for s in names}}\n'
+		f'\treturn [w[{strs[0]}], w[{strs[2]}], len(w), u[{strs[1][:-1]}, \'], len(u)]\n')
+	fn('dl_entries', f'\td = {{key_of(n, v): {two()}(n, v), {two()}(n, v + {c[0]}) + 1000: key_of(v, {two()}(n, {c[2]}))}}\n\te = {{{strs[0]}: n, {strs[1]}: {two()}(n, v), {strs[2]}: n + v}}\n'
+		f'\tt = 0\n\tfor k, y in d.items():\n\t\tt += k * 2 + y\n\treturn [t, len(d), e[{strs[0]}], e[{strs[1]}], e[{strs[2]}], len(e)]\n')
+	fn('lc_proj', f'\txs = {xs}\n\tys = [{two()}(x, n) + {two()}(x, v) * {c[3]} for x in xs]\n\tzs = [key_of(x, key_of(n, v)) for x in xs if {two()}(x, n) > {two()}(v, {c[4]})]\n'
+		f'\tts = [(x, {two()}(x, n)) for x in xs]\n\tt = len(zs) * 7\n\tfor z in zs:\n\t\tt += z\n\tys.append(t)\n\tys.append(ts[0][0] + ts[2][1])\n\treturn ys\n')
+	fn('call_args', f'\treturn [key_of(max(n, v), min(n, {c[5]})), key_of(key_of(n, {c[0]}), key_of({c[1]}, v)), {two()}({two()}(n, v), {two()}(v, {c[2]}))]\n')
+	args = [[rng.randint(0, 9), rng.randint(0, 9)] for _ in range(4)] + [[rng.randint(-20, 40), rng.randint(-20, 40)]]
+	entries = [{'fn': f, 'params': ['int', 'int'], 'ret': 'list[int]', 'args': args} for f in fns]
+	return {'source': '\n\n'.join(parts), 'entries': entries, 'classes': {}}
 
 
 def _container_methods_program(rng: random.Random) -> dict[str, Any]:
